@@ -392,10 +392,14 @@ func (m *Mast) Get(ctx context.Context, k, value interface{}) (bool, error) {
 		return false, nil
 	}
 	if value != nil {
+		dest := reflect.ValueOf(value).Elem()
 		if node.Value[i] == nil {
+			// the entry's value is nil: that is what the caller gets,
+			// not what the destination held before
+			dest.Set(reflect.Zero(dest.Type()))
 			return true, nil
 		}
-		reflect.ValueOf(value).Elem().Set(reflect.ValueOf(node.Value[i]))
+		dest.Set(reflect.ValueOf(node.Value[i]))
 	}
 	return true, nil
 }
